@@ -11,12 +11,22 @@ import (
 // IsearchStart starts incremental search (fuzzy-finding)
 // with values matching the isearch minibuffer as a regexp.
 func (e *Engine) IsearchStart(name string, autoinsert, replaceLine bool) {
+	// A search replacing the line, when started anew while it is running
+	// (to search the next history source), starts from the line the first
+	// one started from: the current one is only what its matches left.
+	restarted := e.keymap.Local() == keymap.Isearch && e.isearchReplaceLine && replaceLine
+
 	// Prepare all buffers and cursors.
 	e.isearchInsert = autoinsert
 	e.isearchReplaceLine = replaceLine
 
-	e.isearchStartBuf = string(*e.line)
-	e.isearchStartCursor = e.cursor.Pos()
+	if restarted {
+		e.line.Set([]rune(e.isearchStartBuf)...)
+		e.cursor.Set(e.isearchStartCursor)
+	} else {
+		e.isearchStartBuf = string(*e.line)
+		e.isearchStartCursor = e.cursor.Pos()
+	}
 
 	e.isearchBuf = new(core.Line)
 	e.isearchCur = core.NewCursor(e.isearchBuf)
